@@ -3,9 +3,12 @@ package main
 // Ops of the Obj family (C18 random filling, C09 object reuse, C07 result transcoders).
 import (
 	"bytes"
+	"fmt"
+	"os"
 	"reflect"
 	"strconv"
 	"strings"
+	"time"
 
 	"github.com/VKCOM/tl/pkg/basictl"
 
@@ -55,12 +58,43 @@ func objReadJSON(obj meta.Object, txt []byte) error {
 	return obj.ReadJSONGeneral(&basictl.JSONReadContext{}, &basictl.JsonLexer{Data: txt})
 }
 
+// objRand: the scripted source srand (ops_tl1.go) with a draw budget: the (max+1)-th draw panics
+// (recovered by main.run -> "panic verif-draw-budget"); the model raises at the same position.
+type objRand struct {
+	srand
+	n, max uint64
+}
+
+func (r *objRand) tick() {
+	r.n++
+	if r.n > r.max {
+		panic("verif-draw-budget")
+	}
+}
+func (r *objRand) Uint32() uint32       { r.tick(); return r.srand.Uint32() }
+func (r *objRand) Int31() int32         { r.tick(); return r.srand.Int31() }
+func (r *objRand) Int63() int64         { r.tick(); return r.srand.Int63() }
+func (r *objRand) NormFloat64() float64 { r.tick(); return r.srand.NormFloat64() }
+
+const objDrawBudget = 60000
+
+// objWatch kills the process when one operation runs longer than d (a FillRandom that neither returns,
+// nor overflows the stack, nor draws): run_lines_resilient reports the line as "crash fatal error: verif watchdog"
+func objWatch(d time.Duration, what string) func() {
+	t := time.AfterFunc(d, func() {
+		fmt.Fprintln(os.Stderr, "fatal error: verif watchdog: "+what)
+		os.Exit(3)
+	})
+	return func() { t.Stop() }
+}
+
 func objFill(name string, seed uint64) meta.Object {
 	obj := factory.CreateObjectFromName(name)
 	if obj == nil {
 		return nil
 	}
-	obj.FillRandom(basictl.NewRandGenerator(&srand{s: seed}))
+	defer objWatch(20*time.Second, "FillRandom "+name)()
+	obj.FillRandom(basictl.NewRandGenerator(&objRand{srand: srand{s: seed}, max: objDrawBudget}))
 	return obj
 }
 
